@@ -170,6 +170,17 @@ def dispatch(vm, m, callee, args):
             return ret(m, SOME(Ref(v.cell, v.path + (('f', 0),))))
         if n == 'ok':
             return ret(m, SOME(rv.f[0]) if rv.name == 'Ok' else NONE())
+        if n == 'transpose':
+            if rv.name == 'None': return ret(m, OK(NONE()))
+            if rv.name == 'Some':
+                inner = rv.f[0]
+                if inner.name == 'Ok': return ret(m, OK(SOME(inner.f[0])))
+                if inner.name == 'Err': return ret(m, inner)
+                if inner.name == 'Some': return ret(m, SOME(OK(inner.f[0])))
+                if inner.name == 'None': return ret(m, NONE())
+            if rv.name == 'Ok':
+                inner = rv.f[0]; return ret(m, NONE() if inner.name == 'None' else SOME(OK(inner.f[0])))
+            if rv.name == 'Err': return ret(m, SOME(rv))
         if n == 'ok_or':
             return ret(m, OK(rv.f[0]) if rv.name == 'Some' else ERR(args[1]))
         if n == 'take' and isinstance(v, Ref):
